@@ -1007,6 +1007,17 @@ class Tr:
         out = []
         for i, s in enumerate(stmts):
             out.append(self.stmt(s, sub))
+            c = out[-1]
+            if c[0] == 'IfFlag' and i + 1 < len(stmts) and not (self.loop_depth > 0 and self.has_jump(s)):
+                # `if not copy: raise ...` / `if copy: return ...` followed by more statements: a branch that never completes
+                # normally does not reach them, so they belong to the other branch only (same runs, and the must-alias
+                # analysis then sees that the statements after the guard run under one flag value only)
+                if always_returns(c[2], False) and not always_returns(c[1], True):
+                    out[-1] = ('IfFlag', seq([c[1], self.block(stmts[i + 1:], sub)]), c[2])
+                    break
+                if always_returns(c[1], True) and not always_returns(c[2], False):
+                    out[-1] = ('IfFlag', c[1], seq([c[2], self.block(stmts[i + 1:], sub)]))
+                    break
             if self.loop_depth > 0 and self.has_jump(s):
                 rest = self.block(stmts[i + 1:], sub)
                 if rest != SKIP:
